@@ -394,6 +394,9 @@ struct RunRec {
     outcome: Outcome,
 }
 
+/// The one property whose statement is "the call terminates": see the watchdog in `main_with`.
+const NONTERMINATION_IS_VIOLATION: &str = "C03";
+
 fn replay_doc(check: &dyn Check, case: &Json, v: &Violation, seed: u64, log_hash: u64) -> Json {
     jobj! {
         "property" => check.property(),
@@ -486,15 +489,32 @@ pub fn main_with(checks: &[&dyn Check], plan: &dyn Fn(&str) -> BatchPlan, args: 
     let violations_seen = AtomicUsize::new(0);
     // watchdog: a run that never ends (a livelock under the simulated clock) must not hang the
     // batch: it is a harness-level failure (exit 2) naming the run, never a verdict
-    let limit_s: u64 = std::env::var("VERIF_RUN_TIMEOUT_S").ok().and_then(|v| v.parse().ok()).unwrap_or(180);
-    let in_flight: Mutex<BTreeMap<u64, (u64, Instant)>> = Mutex::new(BTreeMap::new());
+    // C03 is the exception: its runs are calls into the wire decoders and nothing else (no
+    // simulated clock, no tasks), and "the decoder terminates" is the property itself, so a
+    // run that does not come back is reported as a violation with the generated case as replay
+    let limit_s: u64 = std::env::var("VERIF_RUN_TIMEOUT_S").ok().and_then(|v| v.parse().ok())
+        .unwrap_or(if cli.property == NONTERMINATION_IS_VIOLATION { 60 } else { 180 });
+    let in_flight: Mutex<BTreeMap<u64, (u64, Instant, usize)>> = Mutex::new(BTreeMap::new());
     let finished = std::sync::atomic::AtomicBool::new(false);
     std::thread::scope(|s| {
         s.spawn(|| {
             while !finished.load(Ordering::Relaxed) {
                 std::thread::sleep(std::time::Duration::from_millis(500));
                 let g = in_flight.lock().unwrap();
-                for (idx, (seed, since)) in g.iter() {
+                for (idx, (seed, since, k)) in g.iter() {
+                    if since.elapsed().as_secs() > limit_s && cli.property == NONTERMINATION_IS_VIOLATION {
+                        let c = mine[*k];
+                        let case = c.generate(*seed, cli.thorough);
+                        let v = Violation::new(format!("{}/termination/decoder-does-not-return", c.property()),
+                            format!("check {} run {} seed {}: the decoder calls of this case did not return within {} s of wall-clock time", c.name(), idx, seed, limit_s));
+                        let path = format!("{}/replays/{}-{}-{:016x}.json", VERIF_DIR, c.property(), c.name(), crate::rng::fnv1a(v.class.as_bytes()) ^ *seed);
+                        let _ = std::fs::create_dir_all(format!("{}/replays", VERIF_DIR));
+                        let _ = std::fs::write(&path, replay_doc(c, &case, &v, *seed, 0).to_pretty());
+                        println!("violation class={}", v.class);
+                        println!("  detail: {}", v.detail);
+                        println!("VIOLATION property={} replay={}", c.property(), path);
+                        std::process::exit(1);
+                    }
                     if since.elapsed().as_secs() > limit_s {
                         eprintln!("HARNESS-ERROR: run {} seed {} did not finish within {} s of wall-clock time (livelock under the simulated clock?)", idx, seed, limit_s);
                         std::process::exit(2);
@@ -519,7 +539,7 @@ pub fn main_with(checks: &[&dyn Check], plan: &dyn Fn(&str) -> BatchPlan, args: 
                     let c = mine[k];
                     let seed = derive_seed(cli.seed, c.property(), c.name(), i);
                     let case = c.generate(seed, cli.thorough);
-                    in_flight.lock().unwrap().insert(i, (seed, Instant::now()));
+                    in_flight.lock().unwrap().insert(i, (seed, Instant::now(), k));
                     let outcome = guarded_execute(c, &case, &tol);
                     in_flight.lock().unwrap().remove(&i);
                     if outcome.violation.is_some() {
@@ -828,6 +848,18 @@ fn replay_file(checks: &[&dyn Check], path: &str, findings: &[Finding], cli: &Cl
         eprintln!("replay file has no case");
         return 2;
     };
+    if prop == NONTERMINATION_IS_VIOLATION {
+        // the same rule as in the batch: a decoder case that does not come back is the violation
+        let limit_s: u64 = std::env::var("VERIF_RUN_TIMEOUT_S").ok().and_then(|v| v.parse().ok()).unwrap_or(60);
+        let (prop, path) = (prop.clone(), path.to_string());
+        std::thread::spawn(move || {
+            std::thread::sleep(std::time::Duration::from_secs(limit_s));
+            println!("violation class={}/termination/decoder-does-not-return", prop);
+            println!("  detail: the decoder calls of this case did not return within {} s of wall-clock time", limit_s);
+            println!("VIOLATION property={} replay={}", prop, path);
+            std::process::exit(1);
+        });
+    }
     let o = guarded_execute(check, case, &tol);
     println!("replay property={} check={} log_hash={:016x} (recorded {})", prop, check.name(), o.log_hash, doc.s("log_hash"));
     if let Some(e) = &o.harness_error {
